@@ -10,7 +10,7 @@ PROP = {
                   "cell (C10_saved). The model is tied to the code by running random histories on both and diffing full state dumps after every op.",
     "level_note": "Trusted: Lean kernel + 3 standard axioms; the hand model as exercised by the correspondence stream; HashMap modelled as an association "
                   "list and BTreeSet as a strictly sorted list (std collections not verified); cell content/style are opaque tokens; u32 addition overflow not modelled.",
-    "expect_theorems": ["C10_init", "C10_step", "C10_reachable", "C10_lookup", "C10_observers", "C10_saved"],
+    "expect_theorems": ["C10_kernels_match_source", "C10_init", "C10_step", "C10_reachable", "C10_lookup", "C10_observers", "C10_saved"],
     "rule": "random histories (1..60 ops) over get_cell_mut/set_value/set_cell/remove_cell/set_style/set_style_by_range/insert+remove rows+columns/"
             "move_range/copy_range/cleanup/copy_row_styling/copy_col_styling on a small grid (coordinates 1..7, sometimes 9 and 16), with by-row/by-column/"
             "by-range/get observers interleaved and a save+scan of sheetData every third history; after every mutating op the full dump (map keys, "
